@@ -8,7 +8,8 @@ def leaves(pp, rng):
     c = pp.pyparsing_common
     L = [
         lambda: pp.Literal("ab"), lambda: pp.Literal("a"), lambda: pp.Word("ab"), lambda: pp.Word("ab", max=2),
-        lambda: pp.Word("ab ", min=2), lambda: pp.Word(pp.alphas, pp.alphanums), lambda: pp.Char("abé"),
+        lambda: pp.Word("ab ", min=2), lambda: pp.Word("ab", "ab ", max=3), lambda: pp.Word(pp.alphas, pp.alphas + " ", max=6),
+        lambda: pp.Word(pp.alphas, pp.alphanums), lambda: pp.Char("abé"),
         lambda: pp.Keyword("ab"), lambda: pp.CaselessKeyword("Ab"), lambda: pp.CaselessLiteral("aB"),
         lambda: pp.CharsNotIn("b,"), lambda: pp.CharsNotIn(" ", max=3), lambda: pp.Empty(), lambda: pp.NoMatch(),
         lambda: pp.White(), lambda: pp.White(" \t", min=1, max=2), lambda: pp.Regex(r"a+b?"), lambda: pp.Regex(r"(?P<x>a)(b)?"),
@@ -73,7 +74,7 @@ def wrappers(pp, rng):
     return W1, W2
 
 
-INPUTS = ["", " ", "\t", "\n", "\r\n", "a", "ab", "ab ab", " ab\tab\n", "é", "ab é", "3", "3 a a a", "2 ab ab", "(a (b) c)",
+INPUTS = ["", " ", "\t", "\n", "\r\n", "a", "ab", "ab ab", "ab a", "abab", "War and Peace", " ab\tab\n", "é", "ab é", "3", "3 a a a", "2 ab ab", "(a (b) c)",
           "[a [b] c", '"a\\"b"', "'x\ny'", "<<q>>", "a:a", "ab:ab", "1:1", "1:10", "1.5e3", "-7", "0x1F", "1.2.3.4", "::1",
           "aa:bb:cc:dd:ee:ff", "2020-01-02T03:04:05", "a,b,,c", "a;b;", "#c\nab", "/* c */ ab", "ab+ab*ab", "-ab", "[ab?ab:ab]",
           "<a href='x'>", "</a>", "&amp;", "  a\n  b\n    c\n", "a\n\tb", "ab" * 30, " " * 40, "a\x00b", "ab\n\nab\n", "a b c d e"]
